@@ -627,3 +627,14 @@ func init() {
 		return iface{t: types.NewPointer(t), v: &cell}
 	}
 }
+
+func init() {
+	// Random logger names: fresh and pairwise distinct (assumption: no
+	// collision among the 52^6 random names; a collision makes With... return
+	// an existing child, which is outside the claim).
+	externals["github.com/hedzr/is/stringtool.RandomStringPure"] = func(fr *frame, args []value) value {
+		fr.i.rndNames++
+		s := fmt.Sprintf("rnd%03d", fr.i.rndNames)
+		return s
+	}
+}
